@@ -22,14 +22,21 @@ structural clauses are:
          closures, upvalues) is true. Decided per variant by evaluating is_empty (and len, when it delegates to it) arm by
          arm.
   C01.V  name resolution: resolve_var searches the locals of the current function so that the innermost (last declared)
-         binding of a name wins, and returns the front-based slot index of that binding.
+         binding of a name wins, and returns the front-based slot index of that binding (the search may sit in a helper
+         resolve_var calls; cao/scoping.py).
+  C01.E  for-each variables: the binding code of the ForEach arm copies, for each user variable i / k / v of the card, the
+         hidden local that the interpreter fills with that role (row index / key / value - which operand of the ForEach
+         instruction receives what is read from the instruction's handler) into the variable declared under that name.
+  C01.I  loop locals are stored (SetLocalVar, or operand of BeginForEach / ForEach) before the loop code reads them back.
+         C01.E / C01.I / C01.L are decided on an abstract run of the Repeat / ForEach arms (ArmRun: helpers and closures
+         entered, loops over array literals unrolled), so they see instructions and operand values, not source shapes.
   C01.L  loop control state is hidden from scripts: in the Repeat and ForEach arms every local that compiler-generated
          code READS (read_local_var, or an operand of the loop instructions) is declared with the unnameable name "" -
          a local carrying a script-visible name is only ever written by the loop code (per-iteration copy), so an
          assignment to the loop variable inside the body cannot change the iteration count.
   (+ C06.O local addressing and C10.W operand decoding, shared, see those properties)
 """
-from cao.facts import AnchorMissing, hir_walk, hir_callee, hir_strip, hir_local_id, pat_variants, short
+from cao.facts import AnchorMissing, hir_walk, hir_callee, hir_strip, hir_local_id, pat_variants, pat_bindings, short
 from cao.rules import Rule, ok, bad, undecided, note, shared
 from cao import hirutil as hu
 from cao import compwalk as cw
@@ -416,116 +423,612 @@ def rule_b(F):
     return res
 
 
-def rule_l(F):
-    from rules.c10 import arm_labels
-    res = []
-    f = F.fn("compiler::Compiler::process_card")
-    labels = arm_labels(f)
-    inits = hu.let_inits(f)
-    # classify locals declared through add_local / add_local_unchecked
-    decl = {}   # local id -> ("hidden" | "named", ln)
-    for lid, exprs in inits.items():
-        kinds = set()
-        ln = None
-        for e in exprs:
-            for y in hir_walk(e):
-                if y.get("k") == "mcall" and y["name"] in ("add_local", "add_local_unchecked") and \
-                        any(n.startswith("compiler::Compiler::add_local") for n in hir_callee(y)):
-                    a = hu.strip_all(y["args"][0]) if y["args"] else None
-                    empty = a is not None and a.get("k") == "lit" and a["lit"].get("k") == "str" and a["lit"].get("v") == ""
-                    kinds.add("hidden" if (y["name"] == "add_local_unchecked" and empty) else "named")
-                    ln = y.get("ln")
-        if kinds:
-            decl[lid] = ("named" if "named" in kinds else "hidden", ln)
-    per_arm = {}
-    for x in hir_walk(f.hir["body"]):
-        lab = labels.get(id(x))
-        if lab not in ("Repeat", "ForEach"):
+# ---------------------------------------------------------------------------------------------------
+# What the loop arms of process_card emit, with the values of the operands: an abstract run of the arm's code
+# ---------------------------------------------------------------------------------------------------
+PASS_THROUGH_METHODS = ("as_ref", "as_deref", "as_str", "as_mut", "clone", "cloned", "copied", "iter", "iter_mut", "into_iter", "unwrap",
+                        "expect", "to_owned", "into", "borrow", "as_slice", "by_ref", "deref", "to_string", "as_deref_mut")
+WRAPPER_CTORS = ("Some", "Ok", "Box::new", "Rc::new")
+_NO_INLINE = ("compiler::Compiler::process_card", "compiler::Compiler::compile_subexpr")
+
+
+def _decl_primitive(F):
+    """the Compiler method that declares a local: it builds `Local { name: <parameter>, .. }`. -> (fn, position of the name
+    among [self] + args)"""
+    cached = F.__dict__.get("_c01_decl_prim")
+    if cached is not None:
+        return cached
+    out = None
+    for g in F.fns:
+        if g.hir is None or g.is_closure or not g.short.startswith("compiler::Compiler::"):
             continue
-        if x.get("k") == "mcall" and x["name"] == "read_local_var" and x["args"]:
-            lid = hir_local_id(hu.strip_all(x["args"][0]))
-            per_arm.setdefault(lab, []).append((lid, x, "read_local_var"))
-        elif x.get("k") == "call" and "bytecode::write_to_vec" in hir_callee(x):
-            lid = hir_local_id(hu.strip_all(x["args"][0]))
-            if lid in decl:
-                per_arm.setdefault(lab, []).append((lid, x, "instruction operand"))
+        pids = [[i for i, _n in pat_bindings(p)] for p in g.hir.get("params", [])]
+        for x in hir_walk(g.hir["body"]):
+            if x.get("k") == "struct" and short(x["path"]["res"].get("path", "")) == "compiler::Local":
+                for fld in x["fields"]:
+                    lid = hir_local_id(hu.strip_all(fld["e"]))
+                    pos = [k for k, ids in enumerate(pids) if lid is not None and lid in ids]
+                    if fld["name"] == "name" and pos:
+                        out = (g, pos[0])
+    if out is None:
+        raise AnchorMissing("the Compiler method that declares a local (builds `Local { name, .. }`)")
+    F.__dict__["_c01_decl_prim"] = out
+    return out
+
+
+class ArmRun:
+    """Abstract, flow-insensitive run of one arm of process_card. Compiler's own helpers and the closures handed to them are
+    entered, loops over array literals are unrolled, `?`, Some/Ok and reference adaptors are transparent. Values:
+      ('lit', v)  ('user', CardStruct, field)  ('slot', n)  ('tuple', [..])  ('array', [..])  ('closure', node, env)
+      ('instr', Name)  None (unknown)
+    events (in emission order): ('decl', n, ln) ('instr', Name|None, ln) ('operand', value, ln)
+    slots[n] = {'name': value of the declared name, 'var': the Rust variable the slot number was first bound to, 'ln'}"""
+
+    def __init__(self, F, f):
+        self.F = F
+        self.f = f
+        self.events = []
+        self.slots = []
+        self.decl_fn, self.decl_pos = _decl_primitive(F)
+        self.foreign = 0      # > 0 while inside the body of a helper (events are reported at the call site in the arm)
+        self.site = None
+
+    # -- patterns --------------------------------------------------------------------------------
+    def bind(self, pat, val, env):
+        if pat is None:
+            return
+        k = pat.get("k")
+        if k == "bind":
+            env[pat["id"]] = val
+            for n in _slots_of(val) or []:
+                if self.slots[n]["var"] is None:
+                    self.slots[n]["var"] = pat["name"]
+            if pat.get("sub") is not None:
+                self.bind(pat["sub"], val, env)
+        elif k == "tuple":
+            vs = val[1] if val is not None and val[0] == "tuple" and len(val[1]) == len(pat["pats"]) else [None] * len(pat["pats"])
+            for q, v in zip(pat["pats"], vs):
+                self.bind(q, v, env)
+        elif k == "tuple_struct":
+            # Some(x) / Ok(x) / CardBody::X(x): the payload is the value itself
+            for q in pat["pats"]:
+                self.bind(q, val if len(pat["pats"]) == 1 else None, env)
+        elif k == "struct":
+            sp = short(pat["path"]["res"].get("path", ""))
+            for fl in pat["fields"]:
+                self.bind(fl["pat"], ("user", sp.rsplit("::", 1)[-1], fl["name"]) if sp.startswith("compiler::card::") else None, env)
+        elif k in ("ref", "deref", "box", "guard"):
+            self.bind(pat["pat"], val, env)
+        elif k == "or":
+            for q in pat["pats"]:
+                self.bind(q, val, env)
+        elif k == "slice":
+            for q in pat["before"] + ([pat["mid"]] if pat.get("mid") else []) + pat["after"]:
+                self.bind(q, None, env)
+
+    # -- expressions -----------------------------------------------------------------------------
+    def block(self, bl, env, depth):
+        for st in bl["stmts"]:
+            if st["k"] == "let":
+                v = self.ev(st["init"], env, depth) if st.get("init") is not None else None
+                self.bind(st["pat"], v, env)
+                if st.get("els"):
+                    self.block(st["els"], env, depth)
+            elif st["k"] in ("expr", "semi"):
+                self.ev(st["e"], env, depth)
+        return self.ev(bl["expr"], env, depth) if bl.get("expr") is not None else None
+
+    def for_loop(self, x, env, depth):
+        scrut = hir_strip(x["scrut"])
+        it = self.ev(scrut["args"][0], env, depth) if scrut.get("k") == "call" and scrut["args"] else self.ev(scrut, env, depth)
+        some_arm = None
+        for y in hir_walk(x):
+            if y is not x and y.get("k") == "match" and str(y.get("source", "")).startswith("ForLoopDesugar"):
+                for a in y["arms"]:
+                    if a["body"].get("k") != "break":
+                        some_arm = a
+                break
+        if some_arm is None:
+            return None
+        pat = some_arm["pat"]
+        if pat.get("k") in ("tuple_struct",) and len(pat["pats"]) == 1:
+            pat = pat["pats"][0]
+        elif pat.get("k") == "struct" and len(pat["fields"]) == 1:
+            pat = pat["fields"][0]["pat"]
+        elems = it[1] if it is not None and it[0] == "array" else [None]
+        for e in elems:
+            self.bind(pat, e, env)
+            self.ev(some_arm["body"], env, depth)
+        return None
+
+    def call_closure(self, clo, argvals, depth):
+        _k, node, cenv = clo
+        env2 = dict(cenv)
+        for p, v in zip(node.get("params", []), argvals + [None] * len(node.get("params", []))):
+            self.bind(p, v, env2)
+        saved = self.foreign
+        if short(node.get("path", "")).startswith(self.f.short + "::"):
+            self.foreign = 0
+        try:
+            return self.ev(node["body"], env2, depth + 1)
+        finally:
+            self.foreign = saved
+
+    def ev(self, e, env, depth=0):
+        if e is None:
+            return None
+        e = hir_strip(e)
+        k = e.get("k")
+        if k in ("cast", "addr_of") or (k == "un" and e["op"] == "Deref"):
+            return self.ev(e["e"], env, depth)
+        if k == "lit":
+            return ("lit", e["lit"].get("v"))
+        if k == "path":
+            r = e["path"]["res"]
+            if r["k"] == "local":
+                return env.get(r["id"])
+            sp = short(r.get("path", ""))
+            if "::Instruction::" in sp:
+                return ("instr", sp.rsplit("::", 1)[-1])
+            return None
+        if k == "tup":
+            return ("tuple", [self.ev(x, env, depth) for x in e["elems"]])
+        if k == "array":
+            return ("array", [self.ev(x, env, depth) for x in e["elems"]])
+        if k == "field":
+            base = self.ev(e["e"], env, depth)
+            ty = short(str(hu.strip_all(e["e"]).get("ty", "")).replace("&mut ", "").replace("&", "").strip()).split("<")[0]
+            if ty.startswith("compiler::card::"):
+                return ("user", ty.rsplit("::", 1)[-1], e["name"])
+            if base is not None and base[0] == "tuple" and e["name"].isdigit() and int(e["name"]) < len(base[1]):
+                return base[1][int(e["name"])]
+            return None
+        if k == "block":
+            return self.block(e["block"], dict_view(env), depth)
+        if k == "closure":
+            return ("closure", e, env)
+        if k == "if":
+            c = hir_strip(e["cond"])
+            if c.get("k") == "let":
+                self.bind(c["pat"], self.ev(c["init"], env, depth), env)
+            else:
+                self.ev(c, env, depth)
+            a = self.ev(e["then"], env, depth)
+            b = self.ev(e["else"], env, depth) if e.get("else") is not None else None
+            return _join([a, b])
+        if k == "let":
+            self.bind(e["pat"], self.ev(e["init"], env, depth), env)
+            return None
+        if k == "match":
+            src = str(e.get("source", ""))
+            if src.startswith("ForLoopDesugar"):
+                return self.for_loop(e, env, depth)
+            if src.startswith("TryDesugar"):
+                sc = hir_strip(e["scrut"])
+                return self.ev(sc["args"][0], env, depth) if sc.get("k") == "call" and sc["args"] else self.ev(sc, env, depth)
+            v = self.ev(e["scrut"], env, depth)
+            outs = []
+            for a in e["arms"]:
+                self.bind(a["pat"], v, env)
+                if a.get("guard"):
+                    self.ev(a["guard"], env, depth)
+                outs.append(self.ev(a["body"], env, depth))
+            return _join(outs)
+        if k == "assign":
+            v = self.ev(e["r"], env, depth)
+            lid = hir_local_id(hu.strip_all(e["l"]))
+            if lid is not None:
+                env[lid] = v
+            return None
+        if k in ("call", "mcall"):
+            return self.call(e, env, depth)
+        if k == "loop":
+            for x in block_exprs_of(e):
+                self.ev(x, env, depth)
+            return None
+        out = None
+        from cao.facts import hir_children
+        for c in hir_children(e):
+            out = self.ev(c, env, depth)
+        return out if k in ("ret", "break", "drop_temps", "use") else None
+
+    def call(self, e, env, depth):
+        names = hir_callee(e)
+        args = ([e["recv"]] if e.get("k") == "mcall" else []) + list(e["args"])
+        fval = None
+        if e.get("k") == "call" and not names:
+            fval = self.ev(e["f"], env, depth)
+        elif e.get("k") == "call" and hir_local_id(e["f"]) is not None:
+            fval = env.get(hir_local_id(e["f"]))
+        vals = [self.ev(a, env, depth) for a in args]
+        if self.foreign == 0:
+            self.site = e.get("ln")
+        ln = self.site or e.get("ln")
+        if fval is not None and fval[0] == "closure":
+            return self.call_closure(fval, vals, depth)
+        if self.decl_fn.short in names:
+            n = len(self.slots)
+            self.slots.append({"name": vals[self.decl_pos] if self.decl_pos < len(vals) else None, "var": None, "ln": ln})
+            self.events.append(("decl", n, ln))
+            return ("slot", n)
+        if "compiler::Compiler::push_instruction" in names:
+            v = vals[-1] if vals else None
+            self.events.append(("instr", v[1] if v is not None and v[0] == "instr" else None, ln))
+            return None
+        if "bytecode::write_to_vec" in names:
+            self.events.append(("operand", vals[0] if vals else None, ln))
+            return None
+        for n in names:
+            g = self.F.fn(n, required=False)
+            if g is None or g.hir is None or g.is_closure or not n.startswith("compiler::Compiler::") or n in _NO_INLINE or depth >= 6:
+                continue
+            env2 = {}
+            for p, v in zip(g.hir.get("params", []), vals):
+                self.bind(p, v, env2)
+            self.foreign += 1
+            try:
+                return self.ev(g.hir["body"], env2, depth + 1)
+            finally:
+                self.foreign -= 1
+        last = set(n.rsplit("::", 1)[-1] for n in names) | ({e["name"]} if e.get("k") == "mcall" else set())
+        if e.get("k") == "mcall" and last & set(PASS_THROUGH_METHODS):
+            return vals[0]
+        if e.get("k") == "mcall" and "rev" in last and vals[0] is not None and vals[0][0] == "array":
+            return ("array", list(reversed(vals[0][1])))
+        if e.get("k") == "mcall" and "enumerate" in last and vals[0] is not None and vals[0][0] == "array":
+            return ("array", [("tuple", [("lit", i), v]) for i, v in enumerate(vals[0][1])])
+        if e.get("k") == "mcall" and "zip" in last and len(vals) == 2 and all(v is not None and v[0] == "array" for v in vals):
+            return ("array", [("tuple", [a, b]) for a, b in zip(vals[0][1], vals[1][1])])
+        if e.get("k") == "call" and any(n.endswith(w) or n.endswith("::" + w) for n in names for w in WRAPPER_CTORS) and len(vals) == 1:
+            return vals[0]
+        # an unknown callee: closures handed to it may run, with arguments we know nothing about
+        for v in vals:
+            if v is not None and v[0] == "closure":
+                self.call_closure(v, [], depth)
+        return None
+
+
+def _join(vals):
+    """value of a join of control-flow alternatives: the common value, or ('alt', [..]) of slot numbers when every alternative
+    is a declared local (`match i { Some(v) => add_local(v)?, None => add_local_unchecked("")? }`), else unknown"""
+    vals = list(vals)
+    if vals and all(v == vals[0] for v in vals):
+        return vals[0]
+    flat = []
+    for v in vals:
+        if v is not None and v[0] == "slot":
+            flat.append(v)
+        elif v is not None and v[0] == "alt":
+            flat += v[1]
+        else:
+            return None
+    return ("alt", flat) if flat else None
+
+
+def _slots_of(v):
+    """the declared locals a value may denote: [n, ..] or None"""
+    if v is not None and v[0] == "slot":
+        return [v[1]]
+    if v is not None and v[0] == "alt":
+        return [x[1] for x in v[1]]
+    return None
+
+
+def dict_view(env):
+    """blocks share the environment of their parent (bindings are keyed by unique HIR ids)"""
+    return env
+
+
+def block_exprs_of(loop_node):
+    from cao.facts import block_exprs
+    return list(block_exprs(loop_node["body"]))
+
+
+def loop_arm_runs(F):
+    """arm name -> ArmRun for the Repeat and ForEach arms of process_card"""
+    cached = F.__dict__.get("_c01_arm_runs")
+    if cached is not None:
+        return cached
+    f = F.fn("compiler::Compiler::process_card")
+    arms, _pre, _tail = cs.arms_of(f)
+    if arms is None:
+        raise AnchorMissing("match on CardBody in process_card")
+    out = {}
+    for arm in arms:
+        for v in arm.variants:
+            if v in ("Repeat", "ForEach"):
+                run = ArmRun(F, f)
+                env = {}
+                run.bind(arm.pat, None, env)
+                run.ev(arm.body, env, 0)
+                out[v] = run
     for lab in ("Repeat", "ForEach"):
-        uses = per_arm.get(lab, [])
+        if lab not in out:
+            raise AnchorMissing("the %s arm of process_card" % lab)
+    F.__dict__["_c01_arm_runs"] = (f, out)
+    return f, out
+
+
+def _instr_operands(run):
+    """[(instruction name, ln, [operand values])] in emission order"""
+    out = []
+    for ev in run.events:
+        if ev[0] == "instr":
+            out.append((ev[1], ev[2], []))
+        elif ev[0] == "operand" and out:
+            out[-1][2].append((ev[1], ev[2]))
+    return out
+
+
+def _slot_is_hidden(run, n):
+    nm = run.slots[n]["name"]
+    return nm is not None and nm[0] == "lit" and nm[1] == ""
+
+
+def _slot_var(run, v):
+    ns = _slots_of(v)
+    if ns:
+        return run.slots[ns[0]]["var"] or "slot%d" % ns[0]
+    return None
+
+
+LOOP_INSTRS = ("BeginForEach", "ForEach")
+
+
+def rule_l(F):
+    res = []
+    f, runs = loop_arm_runs(F)
+    for lab in ("Repeat", "ForEach"):
+        run = runs[lab]
+        uses = []
+        for name, ln, ops in _instr_operands(run):
+            if name == "SetLocalVar":
+                continue          # a write
+            for v, oln in ops:
+                if name == "ReadLocalVar":
+                    uses.append((v, oln, "read_local_var"))
+                elif _slots_of(v):
+                    uses.append((v, oln, "instruction operand"))
         if not uses:
             raise AnchorMissing("loop control reads in the %s arm" % lab)
         seen = {}
-        for lid, x, how in uses:
-            d = decl.get(lid)
-            name = None
-            for y in hir_walk(x):
-                if y.get("k") == "path" and y["path"]["res"].get("k") == "local" and y["path"]["res"].get("id") == lid:
-                    name = y["path"]["res"].get("name")
+        for v, ln, how in uses:
+            name = _slot_var(run, v)
             key = "C01/L/process_card[%s]/%s-is-hidden" % (lab, name or "?")
             if key in seen:
                 continue
             seen[key] = True
-            if d is None:
-                res.append(undecided("C01.L", key, f.loc(x["ln"]), "local read by the loop code is not declared through add_local*"))
-            elif d[0] == "hidden":
-                res.append(ok("C01.L", key, f.loc(x["ln"]), "read by the loop code (%s), declared with the unnameable name \"\"" % how))
+            ns = _slots_of(v)
+            named = [n for n in ns or [] if not _slot_is_hidden(run, n)]
+            if not ns:
+                res.append(undecided("C01.L", key, f.loc(ln), "local read by the loop code is not declared through add_local*"))
+            elif not named:
+                res.append(ok("C01.L", key, f.loc(ln), "read by the loop code (%s), declared with the unnameable name \"\"" % how))
             else:
-                res.append(bad("C01.L", key, f.loc(x["ln"]),
+                res.append(bad("C01.L", key, f.loc(ln),
                                "the %s loop reads `%s` (%s) to drive the iteration, but that local can carry a script-visible name (declared "
                                "at line %s through add_local): an assignment to the loop variable inside the body overwrites the loop's own "
-                               "state, the body no longer runs exactly n times with i = 0..n-1" % (lab, name, how, d[1])))
+                               "state, the body no longer runs exactly n times with i = 0..n-1" % (lab, name, how, run.slots[named[0]]["ln"])))
     return res
 
 
 def rule_i(F):
     """C01.I: a loop's own locals live in numbered frame slots, not "wherever the value stack happens to be": every local
-    the Repeat / ForEach code reads back with read_local_var is stored into its slot first - by write_local_var on the same
+    the Repeat / ForEach code reads back with ReadLocalVar is stored into its slot first - by SetLocalVar on the same
     local, or as an operand of the BeginForEach / ForEach instruction (the VM stores those). Statement cards leave their
     values on the stack, so the stack height at loop entry is not the slot number: relying on push order reads a stale or
     foreign slot."""
-    from rules.c10 import arm_labels
     res = []
-    f = F.fn("compiler::Compiler::process_card")
-    labels = arm_labels(f)
-    seq = []
-    for x in hir_walk(f.hir["body"]):
-        lab = labels.get(id(x))
-        if lab not in ("Repeat", "ForEach"):
-            continue
-        if x.get("k") == "mcall" and x["name"] in ("read_local_var", "write_local_var") and x["args"]:
-            seq.append((lab, x["name"], hir_local_id(hu.strip_all(x["args"][0])), x))
-        elif x.get("k") == "call" and "bytecode::write_to_vec" in hir_callee(x):
-            lid = hir_local_id(hu.strip_all(x["args"][0]))
-            if lid is not None:
-                seq.append((lab, "operand", lid, x))
-    n = 0
+    f, runs = loop_arm_runs(F)
     for lab in ("Repeat", "ForEach"):
+        run = runs[lab]
         stored = set()
         seen = set()
-        for l2, what, lid, x in seq:
-            if l2 != lab or lid is None:
+        for name, ln, ops in _instr_operands(run):
+            for v, oln in ops:
+                if name == "SetLocalVar" or (name in LOOP_INSTRS):
+                    stored.update(_slots_of(v) or [])
+                    continue
+                if name != "ReadLocalVar":
+                    continue
+                var = _slot_var(run, v)
+                key = "C01/I/process_card[%s]/%s-stored-before-read" % (lab, var or "?")
+                if key in seen:
+                    continue
+                seen.add(key)
+                if not _slots_of(v):
+                    res.append(undecided("C01.I", key, f.loc(oln), "the local read by the loop code was not resolved to a declaration"))
+                elif all(n in stored for n in _slots_of(v)):
+                    res.append(ok("C01.I", key, f.loc(oln), "stored (write_local_var / loop instruction operand) before the loop code reads it"))
+                else:
+                    res.append(bad("C01.I", key, f.loc(oln),
+                                   "the %s loop reads its local `%s` with read_local_var but never stores it into its slot first (no "
+                                   "write_local_var / loop-instruction operand on it earlier in the arm): the slot is frame offset + index, "
+                                   "not the top of the stack, so with any value left on the stack by an earlier statement the loop reads a "
+                                   "foreign value as its bound or counter" % (lab, var)))
+    return res
+
+
+FOREACH_FIELD_ROLE = {"i": "index", "k": "key", "v": "value"}   # card.rs, struct ForEach: what each user variable is defined to hold
+
+
+def vm_foreach_roles(F):
+    """What the interpreter stores, per iteration, into the local named by each operand of the ForEach instruction:
+    {operand position: 'index' | 'key' | 'value' | 'next-counter'}, read from the MIR of the handler of Instruction::ForEach.
+      key          the result of CaoLangTable::nth_key (the key of the current row)
+      value        the result of the table lookup with that key
+      index        Value::Integer(c), c the counter as it was read from its slot
+      next-counter Value::Integer(c + 1)"""
+    from cao.facts import DefUse, callee_names, op_local, op_place, rvalue_places
+    from cao import mirutil as mu
+    _vf, arms = vm_arm_bodies(F)
+    g = None
+    for x in hir_walk(arms.get("ForEach")) if arms.get("ForEach") is not None else []:
+        if x.get("k") in ("call", "mcall"):
+            for n in hir_callee(x):
+                h = F.fn(n, required=False)
+                if h is not None and h.mir and n.startswith("vm::instr_execution::"):
+                    g = h
+        if g is not None:
+            break
+    if g is None:
+        raise AnchorMissing("the handler of Instruction::ForEach in the interpreter loop")
+    du = DefUse(g)
+
+    def whole_defs(l):
+        return [d for d in du.defs.get(l, []) if not d[3].get("place", d[3].get("dest"))["p"]]
+    decodes = [(bi, t["dest"]["l"]) for bi, t in mu.calls(g) if any(n.endswith("::decode_value") for n in callee_names(t["func"]))]
+    decodes.sort()
+    if len(decodes) < 3 or any(not g.cfg.dominates(decodes[i][0], decodes[i + 1][0]) for i in range(len(decodes) - 1)):
+        raise AnchorMissing("operand decoding in %s" % g.short)
+    pos_of_dest = {l: i for i, (_b, l) in enumerate(decodes)}
+
+    def back(l, through_calls=True):
+        """backward slice of a local: (locals, call names, has arithmetic)"""
+        seen, calls_, arith = set(), [], False
+        work = [l]
+        while work:
+            x = work.pop()
+            if x in seen:
                 continue
-            if what in ("write_local_var", "operand"):
-                stored.add(lid)
+            seen.add(x)
+            for _b, _s, kind, d in whole_defs(x):
+                if kind == "assign":
+                    if d["rv"]["k"] in ("bin", "checked_bin"):
+                        arith = True
+                    for pl in rvalue_places(d["rv"]):
+                        work.append(pl["l"])
+                else:
+                    calls_.append(d)
+                    if through_calls:
+                        for a_ in d["args"]:
+                            q = op_place(a_)
+                            if q is not None:
+                                work.append(q["l"])
+        return seen, calls_, arith
+
+    def operand_pos(op):
+        l = op_local(op)
+        if l is None:
+            return None
+        seen, _c, _a = back(l, through_calls=False)
+        hit = sorted(pos_of_dest[x] for x in seen if x in pos_of_dest)
+        return hit[0] if len(hit) == 1 else None
+
+    def classify(op):
+        l = op_local(op)
+        if l is None:
+            return None
+        seen, calls_, arith = back(l)
+        names = [n for c in calls_ for n in callee_names(c["func"])]
+        has_key = any(n.endswith("CaoLangTable::nth_key") for n in names)
+        has_get = any(n.rsplit("::", 1)[-1] == "get" and ("CaoHashMap" in n or "CaoLangTable" in n) for n in names)
+        if has_key and has_get:
+            return "value"
+        if has_key:
+            return "key"
+        # Value::Integer(x)
+        cur = l
+        for _ in range(6):
+            ds = whole_defs(cur)
+            if len(ds) != 1 or ds[0][2] != "assign":
+                return None
+            rv = ds[0][3]["rv"]
+            if rv["k"] == "use" and op_local(rv["op"]) is not None:
+                cur = op_local(rv["op"])
                 continue
-            name = None
-            for y in hir_walk(x["args"][0]):
-                if y.get("k") == "path" and y["path"]["res"].get("k") == "local":
-                    name = y["path"]["res"].get("name")
-            key = "C01/I/process_card[%s]/%s-stored-before-read" % (lab, name or "?")
-            if key in seen:
-                continue
-            seen.add(key)
-            n += 1
-            if lid in stored:
-                res.append(ok("C01.I", key, f.loc(x["ln"]), "stored (write_local_var / loop instruction operand) before the loop code reads it"))
+            if rv["k"] == "agg" and rv["agg"].get("variant") == "Integer" and rv["ops"]:
+                x = op_place(rv["ops"][0])
+                if x is None:
+                    return None
+                s2, c2, arith2 = back(x["l"])
+                reads_slot = any(operand_pos(a_) is not None for c in c2 for a_ in c["args"])
+                if not reads_slot:
+                    return None
+                return "next-counter" if arith2 else "index"
+            return None
+        return None
+
+    roles = {}
+    for bi, t in mu.calls(g):
+        nm = callee_names(t["func"])
+        if any(n.endswith("::decode_value") for n in nm):
+            continue
+        vals = [a_ for a_ in t["args"] if op_local(a_) is not None and g.local_ty(op_local(a_)) == "value::Value"]
+        poss = [operand_pos(a_) for a_ in t["args"] if op_local(a_) is not None and g.local_ty(op_local(a_)) != "value::Value"]
+        poss = [p_ for p_ in poss if p_ is not None]
+        if len(vals) == 1 and len(poss) == 1:
+            r = classify(vals[0])
+            if r is not None:
+                if poss[0] in roles and roles[poss[0]] != r:
+                    roles[poss[0]] = "conflict"
+                else:
+                    roles[poss[0]] = r
+    return g, roles
+
+
+def rule_e(F):
+    """C01.E: the binding code of a loop card copies role X's hidden register into role X's user variable. The ForEach
+    instruction's operands name the hidden locals the interpreter fills each iteration; which operand receives the row index,
+    the key and the value is read from the interpreter (vm_foreach_roles). In the ForEach arm of process_card every copy
+    `ReadLocalVar h; SetLocalVar u` whose destination u was declared under the name held by a field of the ForEach card
+    (i / k / v) must read the hidden local h that sits at the operand position of that field's role."""
+    res = []
+    f, runs = loop_arm_runs(F)
+    run = runs["ForEach"]
+    vmf, roles = vm_foreach_roles(F)
+    ios = _instr_operands(run)
+    fe = [(name, ln, ops) for name, ln, ops in ios if name == "ForEach"]
+    if len(fe) != 1:
+        raise AnchorMissing("emission of Instruction::ForEach in the ForEach arm (found %d)" % len(fe))
+    slot_role = {}
+    for pos, (v, _ln) in enumerate(fe[0][2]):
+        if v is not None and v[0] == "slot" and pos in roles:
+            slot_role.setdefault(v[1], set()).add(roles[pos])
+    found = {}
+    for idx in range(len(ios) - 1):
+        n1, l1, o1 = ios[idx]
+        n2, l2, o2 = ios[idx + 1]
+        if n1 != "ReadLocalVar" or n2 != "SetLocalVar" or len(o1) != 1 or len(o2) != 1:
+            continue
+        src, dst = o1[0][0], o2[0][0]
+        if dst is None or dst[0] != "slot":
+            continue
+        nm = run.slots[dst[1]]["name"]
+        if nm is None or nm[0] != "user" or nm[1] != "ForEach":
+            continue
+        found.setdefault(nm[2], []).append((src, l1))
+    for fld, want in FOREACH_FIELD_ROLE.items():
+        key = "C01/E/process_card[ForEach]/%s-receives-the-row-%s" % (fld, want)
+        copies = found.get(fld, [])
+        if not copies:
+            res.append(undecided("C01.E", key, f.loc(fe[0][1]), "no copy into the variable named by ForEach.%s was found in the arm" % fld))
+            continue
+        verdicts = []
+        for src, ln in copies:
+            if src is None or src[0] != "slot" or src[1] not in slot_role or "conflict" in slot_role[src[1]]:   # ('alt', ..) is not decided
+                verdicts.append(("undecided", ln, "the local copied into the user's `%s` is not an operand of the ForEach instruction with a known role" % fld))
+            elif slot_role[src[1]] == {want}:
+                verdicts.append(("ok", ln, _slot_var(run, src)))
             else:
-                res.append(bad("C01.I", key, f.loc(x["ln"]),
-                               "the %s loop reads its local `%s` with read_local_var but never stores it into its slot first (no "
-                               "write_local_var / loop-instruction operand on it earlier in the arm): the slot is frame offset + index, "
-                               "not the top of the stack, so with any value left on the stack by an earlier statement the loop reads a "
-                               "foreign value as its bound or counter" % (lab, name)))
-    if n < 5:
-        raise AnchorMissing("read_local_var uses in the Repeat/ForEach arms (found %d)" % n)
+                got = "/".join(sorted(slot_role[src[1]]))
+                verdicts.append(("bad", ln, (got, _slot_var(run, src))))
+        wrong = [v for v in verdicts if v[0] == "bad"]
+        und = [v for v in verdicts if v[0] == "undecided"]
+        if wrong:
+            got, var = wrong[0][2]
+            res.append(bad("C01.E", key, f.loc(wrong[0][1]),
+                           "the ForEach arm fills the user's variable `%s` (ForEach.%s, defined as the row's %s) from the hidden local `%s`, "
+                           "which the interpreter (%s) fills with the row's %s: the body sees %s == the %s of the row - for any table "
+                           "whose keys are not 0..n-1 in order (string keys, sparse or out-of-order integer keys) the program observes a "
+                           "different value than the card semantics define" % (fld, fld, want, var, vmf.name, got, fld, got),
+                           roles={str(k_): v_ for k_, v_ in roles.items()}))
+        elif und:
+            res.append(undecided("C01.E", key, f.loc(und[0][1]), und[0][2]))
+        else:
+            res.append(ok("C01.E", key, f.loc(verdicts[0][1]),
+                          "copied from `%s`, the operand the interpreter fills with the row's %s" % (verdicts[0][2], want),
+                          roles={str(k_): v_ for k_, v_ in roles.items()}))
     return res
 
 
@@ -533,7 +1036,10 @@ def rule_v(F):
     """innermost binding wins: the search over `locals` in resolve_var stops at the first hit of a *reversed* scan whose
     reported index counts from the front (enumerate before rev, or rposition)."""
     from cao import scoping as sc
-    return sc.rule_innermost(F, "C01.V", "compiler::Compiler::resolve_var", "locals", "C01/V/resolve_var")
+    # the search may have been moved into a helper; the fallback into resolve_upvalue (the enclosing functions' locals) is
+    # C06.V's search
+    return sc.rule_innermost(F, "C01.V", "compiler::Compiler::resolve_var", "locals", "C01/V/resolve_var",
+                             not_into=("compiler::Compiler::resolve_upvalue",))
 
 
 def rule_d(F):
@@ -557,16 +1063,56 @@ def rule_d(F):
                 if any(emits_clear(z, depth + 1) for z in hir_walk(g.hir["body"]) if z.get("k") in ("mcall", "call")):
                     return True
         return False
+    NO_EXPAND = ("compiler::Compiler::process_card", "compiler::Compiler::compile_subexpr")
+
+    def flat_calls(g, body, env, depth, stack):
+        """the calls of `body` in source order, the bodies of Compiler's own helpers spliced in after the call that enters them
+        (a helper that compiles one child / the whole loop body); env: parameter of the helper -> (argument expression, env)"""
+        for x in hir_walk(body):
+            if x.get("k") not in ("mcall", "call"):
+                continue
+            yield x, env, depth
+            if depth >= 3:
+                continue
+            for n in hir_callee(x):
+                h = F.fn(n, required=False)
+                if h is None or h.hir is None or h.is_closure or not n.startswith("compiler::Compiler::") or n in NO_EXPAND or n in stack:
+                    continue
+                args = ([x["recv"]] if x.get("k") == "mcall" else []) + list(x["args"])
+                env2 = {}
+                for a, p in zip(args, h.hir.get("params", [])):
+                    for pid, _nm in pat_bindings(p):
+                        env2[pid] = (a, env)
+                for y in flat_calls(h, h.hir["body"], env2, depth + 1, stack + (n,)):
+                    yield y
+                break
+
+    def is_one(a, env):
+        for _ in range(4):
+            a = hu.strip_all(a) if a is not None else None
+            lid = hir_local_id(a) if a is not None else None
+            if lid is None or lid not in env:
+                break
+            a, env = env[lid]
+        return a is not None and a.get("k") == "lit" and a["lit"].get("v") == 1
+
+    flat = []
+    cur = None
+    for x, env, depth in flat_calls(f, f.hir["body"], {}, 0, (f.short,)):
+        if depth == 0:
+            cur = labels.get(id(x))
+        flat.append((x, env, cur))     # calls inside a helper belong to the arm that called it
     for lab in ("Repeat", "ForEach", "While"):
-        seq = [x for x in hir_walk(f.hir["body"]) if labels.get(id(x)) == lab and x.get("k") in ("mcall", "call")]
-        # the body: process_card under push_subindex(1); take the last process_card before a scope_end that follows a push_subindex
+        seq_env = [(x, env) for x, env, l2 in flat if l2 == lab]
+        seq = [x for x, _e in seq_env]
+        # the body: process_card under push_subindex(1) - in the arm or in a helper it calls; take the last process_card
+        # before a scope_end that follows a push_subindex
         body_i = None
         pushed = False
-        for i, x in enumerate(seq):
+        for i, (x, env) in enumerate(seq_env):
             names = hir_callee(x)
             if any(n.endswith("CardIndex::push_subindex") for n in names):
-                a = hu.strip_all(x["args"][0]) if x.get("args") else None
-                pushed = a is not None and a.get("k") == "lit" and a["lit"].get("v") == 1
+                pushed = is_one(x["args"][0], env) if x.get("args") else False
             elif any(n.endswith("CardIndex::pop_subindex") for n in names):
                 pushed = False
             elif pushed and any(n.endswith("Compiler::process_card") for n in names):
@@ -642,6 +1188,7 @@ RULES = [
     Rule("C01.G", rule_g, 1, "an unset global is distinguishable from every value a script can store"),
     Rule("C01.R", shared(_c19_rule_c, "C19.C", "C01.R"), 2, "Less / LessOrEq on numbers follow the payloads' own order (shared with C19.C)"),
     Rule("C01.Q", shared(_c19_rule_x, "C19.X", "C01.Q"), 2, "Equals / NotEquals on numbers is exact equality (shared with C19.X)"),
+    Rule("C01.E", rule_e, 3, "each for-each variable (i / k / v) is fed from the hidden local the interpreter fills with that role"),
     Rule("C01.I", rule_i, 5, "loop locals are stored into their slots before the loop code reads them"),
     Rule("C01.T", rule_t, 36, "operator cards -> like-named instruction -> like operator"),
     Rule("C01.O", rule_o, 10, "operand order of binary operators"),
